@@ -195,7 +195,8 @@ def run_shard(job, idx, prop, sd, workdir, extra_args=None):
     cmd = launcher + ["--prop", prop, "--seed", str(sd), "--shard", "%d/%d" % (idx, job.shards), "--budget-s", "%.1f" % job.budget,
                                "--replay-dir", REPLAYS, "--log", logf,
                                "--corpus64", os.path.join(CORPUS, "cf_hard_f64.txt"), "--corpus32", os.path.join(CORPUS, "cf_hard_f32.txt"),
-                               "--corpus64s", os.path.join(CORPUS, "cf_short_f64.txt"), "--corpus32s", os.path.join(CORPUS, "cf_short_f32.txt")] + job.args + list(extra_args or [])
+                               "--corpus64s", os.path.join(CORPUS, "cf_short_f64.txt"), "--corpus32s", os.path.join(CORPUS, "cf_short_f32.txt"),
+                               "--corpus-limb", os.path.join(CORPUS, "limb_struct_f64.txt")] + job.args + list(extra_args or [])
     res.cmd = cmd
     env = base_env()
     if job.instr.startswith("miri"):
